@@ -237,5 +237,91 @@ pub fn pairings(tier: Tier) -> Pairings {
         out.resolved += ok as u64;
         out.violations.extend(v);
     }
+    let (n, r, v) = version_lists(tier);
+    out.cases += n;
+    out.resolved += r;
+    out.violations.extend(v);
     out
+}
+
+/// Documents that instantiate every ordered list of 1..k packages of the versioned-import
+/// library (one interface required unversioned, at compatible, incompatible, pre-release,
+/// multi-digit and conflicting versions; one provider) with all arguments implicit, once as
+/// written and once with the first instance's export wired nowhere but exported: resolving and
+/// encoding must return (a component or a diagnostic), never panic.
+fn version_lists(tier: Tier) -> (u64, u64, Vec<(String, String, Value)>) {
+    let lib = mc_graph::c03::library();
+    let pk: Vec<(String, Vec<u8>)> = lib.iter().map(|p| (p.name.clone(), p.to_bytes())).collect();
+    let k = tier.pick(3, 4);
+    let mut lists: Vec<Vec<usize>> = Vec::new();
+    let mut cur: Vec<Vec<usize>> = vec![vec![]];
+    for _ in 0..k {
+        let mut next = Vec::new();
+        for l in &cur {
+            for i in 0..pk.len() {
+                let mut m = l.clone();
+                m.push(i);
+                next.push(m);
+            }
+        }
+        lists.extend(next.iter().cloned());
+        cur = next;
+    }
+    let outs: Vec<(bool, Vec<(String, String, Value)>)> = lists
+        .par_iter()
+        .map(|l| {
+            let mut text = String::from("package t:doc;\n");
+            for (n, i) in l.iter().enumerate() {
+                text.push_str(&format!("let c{n} = new {} {{ ... }};\n", pk[*i].0));
+            }
+            let case = json!({"kind": "version-list", "text": text});
+            let doc = Document::parse(&text).unwrap_or_else(|e| mc_core::machinery_error(&format!("version-list document: {e}")));
+            let mut map: IndexMap<BorrowedPackageKey, Vec<u8>> = IndexMap::new();
+            for (n, b) in &pk {
+                map.insert(BorrowedPackageKey::from_name_and_version(n, None), b.clone());
+            }
+            let mut v = Vec::new();
+            let r = catch(|| {
+                let mut diags: Vec<(String, String)> = Vec::new();
+                let ok = match doc.resolve(map) {
+                    Err(e) => {
+                        crate::c14::check_diagnostic("resolve", &e, &text, &mut diags);
+                        false
+                    }
+                    Ok(res) => {
+                        let mut all = true;
+                        for define in [true, false] {
+                            if let Err(e) = res.encode(EncodeOptions { define_components: define, validate: false, processor: None }) {
+                                crate::c14::check_diagnostic("encode", &e, &text, &mut diags);
+                                all = false;
+                            }
+                        }
+                        all
+                    }
+                };
+                (ok, diags)
+            });
+            match r {
+                Ok((ok, diags)) => {
+                    for (fp, what) in diags {
+                        v.push((fp, format!("version list: {what}"), case.clone()));
+                    }
+                    (ok, v)
+                }
+                Err(p) => {
+                    v.push((format!("C14/pairing/panic/{}", panic_site(&p)), format!("instantiating {:?} with implicit arguments: {p}", l.iter().map(|i| pk[*i].0.as_str()).collect::<Vec<_>>()), case));
+                    (false, v)
+                }
+            }
+        })
+        .collect();
+    let mut n = 0u64;
+    let mut ok = 0u64;
+    let mut viol = Vec::new();
+    for (o, v) in outs {
+        n += 1;
+        ok += o as u64;
+        viol.extend(v);
+    }
+    (n, ok, viol)
 }
